@@ -1733,11 +1733,15 @@ def c17_interrupted(tier):
         "kcgr": (["comp", "cgr"], ["-k", "4", "-v", "16", "-t", "2"], None),
         "s2m": (["min"], ["-m", "7", "-w", "11", "-p", "s2m", "-t", "2"], None),
         "m2s": (["min"], ["-m", "7", "-w", "11", "-p", "m2s", "-t", "2"], None),
-        "ctr": (["ctr"], ["-k", "11", "-t", "2"], ["kmers.counts"]),
-        "ctr-acgt": (["ctr"], ["-k", "11", "-a", "-t", "2"], ["kmers.counts"]),
-        "cov": (["cov"], ["-k", "11", "-s", "5", "-c", "5", "-t", "2"], ["kmers.counts", "kmers.vectors"]),
+        "ctr": (["ctr"], ["-k", "11", "-t", "4"], ["kmers.counts"]),
+        "ctr-acgt": (["ctr"], ["-k", "11", "-a", "-t", "4"], ["kmers.counts"]),
+        "cov": (["cov"], ["-k", "11", "-s", "5", "-c", "5", "-t", "4"], ["kmers.counts", "kmers.vectors"]),
     }
-    ladder = [0, 1 << 9, 1 << 11, 1 << 13, 1 << 15, 1 << 17, 1 << 19] if tier == "quick" else [0] + [1 << i for i in range(6, 23)] + [3 * (1 << i) for i in range(8, 20, 2)]
+    # crash points: a geometric ladder, in quarter-octave steps where the files of these jobs end (the temporary files
+    # of the counter are smaller than its table only with several partitions: 4 threads there)
+    ladder = [0, 1 << 9, 1 << 11, 1 << 13, 1 << 15] + [q * (1 << i) // 4 for i in range(17, 20) for q in (4, 5, 6, 7)] + [1 << 20]
+    if tier == "thorough":
+        ladder = sorted(set(ladder + [q * (1 << i) // 4 for i in range(6, 23) for q in (4, 5, 6, 7)]))
 
     def result(kind, out):
         files = KINDS[kind][2]
@@ -1801,6 +1805,66 @@ def c17_interrupted(tier):
     rep.count("c17.interrupted_histories", len(jobs))
     rep.count("c17.crash_points_per_job", len(ladder))
     rep.sample("kmertools ctr on 300 records cut off by RLIMIT_FSIZE = 32768, then ctr on 3 records into the same directory: kmers.counts equals that of a fresh directory")
+    return rep.done()
+
+
+def c12_huge_output(tier):
+    """the text of ONE batch beyond 2^31 bytes (thorough tier only: about 5 GB of scratch and 3 minutes): k-mer CGR at
+    k = 7 on 10 400 short reads; oracle: the output of the whole file equals the outputs of its two halves, one after
+    the other (compared as streams), and has one line per record."""
+    rep = Rep()
+    if tier != "thorough":
+        rep.count("c12.huge_output_runs", 0)
+        return rep.done()
+    try:
+        avail = int([l for l in open("/proc/meminfo") if l.startswith("MemAvailable")][0].split()[1]) // (1 << 20)
+    except Exception:
+        avail = 0
+    if avail < 24:
+        rep.note("one batch beyond 2^31 bytes of text not run: %d GiB of memory available" % avail)
+        rep.count("c12.huge_output_runs", 0)
+        return rep.done()
+    d = fresh_dir("c12huge")
+    recs = lcg_records(10_400, 31337, 55, 75, False)
+    half = len(recs) // 2
+    paths = []
+    for name, part in (("all", recs), ("a", recs[:half]), ("b", recs[half:])):
+        p = os.path.join(d, name + ".fa")
+        open(p, "wb").write(fasta_bytes(part))
+        paths.append(p)
+    outs = [os.path.join(d, n) for n in ("all.out", "a.out", "b.out")]
+    for p, o in zip(paths, outs):
+        rc, so, err, to = cli(["comp", "cgr", "-i", p, "-o", o, "-k", "7", "-t", "8"], timeout=1800)
+        rep.ev(1, 1)
+        if rc != 0 or to:
+            rep.violation("run-failed", 1, "kmertools comp cgr -k 7 on %s: exit %s %r" % (os.path.basename(p), rc, err[-200:]), "c12_huge_output", {})
+            shutil.rmtree(d, ignore_errors=True)
+            return rep.done()
+    size = os.path.getsize(outs[0])
+    rep.count("c12.huge_output_bytes_max", 0)
+    rep.d["counters"]["c12.huge_output_bytes_max"] = size
+    same = size == os.path.getsize(outs[1]) + os.path.getsize(outs[2])
+    lines = 0
+    if same:
+        with open(outs[0], "rb") as whole:
+            for part in outs[1:]:
+                with open(part, "rb") as f:
+                    while True:
+                        b = f.read(1 << 24)
+                        if not b:
+                            break
+                        w = whole.read(len(b))
+                        lines += w.count(b"\n")
+                        if w != b:
+                            same = False
+                            break
+                if not same:
+                    break
+    if not same or lines != len(recs):
+        rep.violation("huge-batch-output", 1, "kmertools comp cgr -k 7 -t 8 on 10 400 reads: %d bytes (%d lines compared), the two halves give %d + %d bytes: the whole is not the halves one after the other" % (
+            size, lines, os.path.getsize(outs[1]), os.path.getsize(outs[2])), "c12_huge_output", {})
+    rep.count("c12.huge_output_runs", 3)
+    shutil.rmtree(d, ignore_errors=True)
     return rep.done()
 
 
@@ -1874,6 +1938,32 @@ def c03_cli(tier):
             rep.violation("column-count", k, "kmertools %s: rows do not have one value per header column" % " ".join(args), "c03_cli", a)
 
     pmap(do, jobs)
+
+    # the header line before one batch of more than 2^25 bytes of rows (both writers, file and standard input)
+    big = os.path.join(d, "big.fa")
+    nbig = 9000
+    open(big, "wb").write(b"".join(b">q%d\n%s\n" % (i, r) for i, r in enumerate(lcg_records(nbig, 808, 12, 50, False))))
+
+    def do_big(job):
+        k, counts, stdin_input, preset = job
+        out = os.path.join(fresh_dir("c03b"), "o.txt")
+        args = ["comp", "oligo", "-i", "-" if stdin_input else big, "-o", out, "-k", str(k), "-p", preset, "-H", "-t", "4"] + (["-c"] if counts else [])
+        rc, so, err, to = cli(args, timeout=300, stdin_file=big if stdin_input else None)
+        rep.ev(1, 1)
+        a = {"k": k, "counts": counts, "stdin": stdin_input, "records": nbig}
+        names = PRESET_DELIM[preset].join(n.encode() for n in pm.header_names(k))
+        data = read(out)
+        if rc != 0 or data is None:
+            rep.violation("run-failed", k, "kmertools %s: exit %s %r" % (" ".join(args), rc, err[-200:]), "c03_cli", a)
+            return
+        first, _, rest = data.partition(b"\n")
+        nlines = data.count(b"\n")
+        again = rest.find(names)
+        if first != names or nlines != nbig + 1 or again != -1:
+            rep.violation("header-line", k, "kmertools %s on %d records (%d bytes of output): the first line %s the header, %d lines, header text found %s" % (
+                " ".join(args), nbig, len(data), "is" if first == names else "is NOT", nlines, "only at the top" if again == -1 else "again at byte %d" % (again + len(first) + 1)), "c03_cli", a)
+
+    pmap(do_big, [(5, 1, False, "csv"), (5, 0, True, "tsv"), (5, 0, False, "spc"), (4, 1, True, "csv")])
     code = "import sys,json; sys.path.insert(0,%r); import pykmertools as p; print(json.dumps({k: p.OligoComputer(k).get_header() for k in range(1,9)}))" % fe.PYMOD_DIR
     rc, so, err, to = _py_eval(code)
     if rc != 0:
@@ -1897,9 +1987,12 @@ def c04_cli(tier):
     for n in range(1, maxlen + 1):
         recs += [bytes(t) for t in itertools.product(b"ACGTN", repeat=n)]
     recs = [r for r in recs if r]  # FASTA records with at least one base (empty records are covered in C16)
+    # ... except one in the middle, whose header line has no id but a description: its row is all zeros
+    mid = len(recs) // 2
+    recs.insert(mid, b"")
     d = fresh_dir("c04")
     inp = os.path.join(d, "in.fa")
-    text = fasta_bytes(recs)
+    text = b"".join((b"> unplaced scaffold\n\n" if i == mid else b">r%d d\n%s\n" % (i, r)) for i, r in enumerate(recs))
     open(inp, "wb").write(text)
     # the container is part of the input of every file-level path: the same records as a gzip file with one member
     # and as one with several members whose boundaries fall inside sequence lines, headers and between records
